@@ -179,14 +179,27 @@ class Gen:
                     return r.choice(opts)
         return self.lit(ty)
 
-    def list_prim(self, ty: str, env: dict[str, str]) -> Any:
+    def list_prim(self, ty: str, env: dict[str, str], loop: bool = False) -> Any:
         """A primitive list expression: ty in ints / strs / objs."""
         r = self.r
         v = self.var_of(ty, env)
         if ty == "ints" and (v is None or r.random() < 0.3):
             a = r.choice([0, 1, 2, 3])
-            return M.Rng(M.Lit(a) if r.random() < 0.7 else (self.var_of("int", env) or M.Lit(a)),
-                         M.Lit(a + r.choice([-1, 0, 1, 2, 4])))
+            stop: Any = M.Lit(a + r.choice([-1, 0, 1, 2, 4]))
+            if r.random() < 0.3:
+                # a stop that varies between evaluations of the same node (small by construction)
+                opts: list[Any] = []
+                if loop:
+                    opts += [M.Var("forloop", ["index"]), M.Var("forloop", ["index"]), M.Var("forloop", ["length"])]
+                if any(t == "ints" for t in env.values()):
+                    opts.append(M.Var(self.var_of("ints", env).root, ["size"]))
+                if any(t == "hash" for t in env.values()):
+                    opts.append(M.Var(self.var_of("hash", env).root, ["count"]))
+                if any(t == "objs" for t in env.values()):
+                    opts.append(M.Var(self.var_of("objs", env).root, [r.choice([0, 1]), "k"]))
+                if opts:
+                    stop = r.choice(opts)
+            return M.Rng(M.Lit(a) if r.random() < 0.7 else (self.var_of("int", env) or M.Lit(a)), stop)
         if v is None:
             v = M.Var(POOL[ty][0])
         if ty == "ints" and r.random() < 0.15 and any(t == "hash" for t in env.values()):
@@ -243,7 +256,7 @@ class Gen:
             f = r.choice(self.LIST_FILTERS + ["join", "first", "last", "size", "sum" if ty == "ints" else "sort_natural"])
             el = "int" if ty == "ints" else "str"
             if f == "concat":
-                return M.FCall(f, [self.list_prim(ty, env)]), ty
+                return M.FCall(f, [self.list_prim(ty, env, loop)]), ty
             if f == "slice":
                 return M.FCall(f, [M.Lit(r.choice([0, 1, -1, -2])), M.Lit(r.choice([1, 2, 3]))]), ty
             if f == "join":
@@ -293,7 +306,7 @@ class Gen:
         r = self.r
         ty = r.choice(["str", "str", "int", "int", "float", "bool", "ints", "strs", "objs"])
         if ty in ("ints", "strs", "objs"):
-            left: Any = self.list_prim(ty, env)
+            left: Any = self.list_prim(ty, env, loop)
         else:
             left = self.prim(ty, env, loop)
         fs: list[M.FCall] = []
@@ -462,7 +475,7 @@ class Gen:
             ty = r.choice(["int", "str", "str", "bool", "ints", "strs", "float"])
             name = self.name_for(ty)
             if ty in ("ints", "strs"):
-                e: Any = M.Filt(self.list_prim(ty, env), [M.FCall(r.choice(["reverse", "uniq", "sort"]))] if r.random() < 0.5 else [])
+                e: Any = M.Filt(self.list_prim(ty, env, loop), [M.FCall(r.choice(["reverse", "uniq", "sort"]))] if r.random() < 0.5 else [])
                 if r.random() < 0.2:
                     el = "int" if ty == "ints" else "str"
                     e = M.Filt(M.Arr([self.prim(el, env, loop) for _ in range(r.randint(2, 3))]))
@@ -529,7 +542,7 @@ class Gen:
                 it: Any = self.var_of("hash", env) or M.Var("h")
                 e2[var] = "pair"
             else:
-                it = self.list_prim(ty, env)
+                it = self.list_prim(ty, env, loop)
                 e2[var] = {"ints": "int", "strs": "str", "objs": "obj"}[ty]
             limit = offset = None
             rev = False
